@@ -23,6 +23,31 @@ class Infra(Exception):
     """Something in the machinery (not in kevo) went wrong: exit 2, never a violation."""
 
 
+class KevoPanic(Infra):
+    """The harness process died from a Go panic / fatal error raised INSIDE kevo's code (top frame in github.com/KevoDB/kevo/pkg):
+    that is an observation of the code under test, not a machinery failure.  The driver re-runs the command and reports a
+    violation if it happens again."""
+
+    def __init__(self, msg, cmd, env, stderr):
+        super().__init__(msg)
+        self.cmd, self.env, self.stderr = cmd, env, stderr
+
+
+def kevo_panic(stderr):
+    """Returns a one-line description if stderr shows a panic whose first frame below the runtime is kevo code."""
+    m = re.search(r'^(panic: .*|fatal error: .*)$', stderr, re.M)
+    if not m:
+        return None
+    frames = re.findall(r'^([\w./()*\-]+)\(.*\)\n\t(\S+):(\d+)', stderr[m.start():], re.M)
+    for fn, path, line in frames:
+        if fn.startswith('runtime.') or fn.startswith('panic(') or '/runtime/' in path:
+            continue
+        if fn.startswith('github.com/KevoDB/kevo/'):
+            return f'{m.group(1)} in {fn} ({os.path.basename(path)}:{line})'
+        return None
+    return None
+
+
 def log(*a):
     print(*a, file=sys.stderr, flush=True)
 
@@ -108,6 +133,10 @@ class Ctx:
         except subprocess.TimeoutExpired:
             raise Infra(f'harness timed out after {timeout}s: kvh {" ".join(args[:3])}')
         if check and p.returncode != 0:
+            kp = kevo_panic(p.stderr)
+            if kp:
+                raise KevoPanic(f'kevo code panicked while the harness ran `kvh {" ".join(args[:2])} ...`: {kp}', [self.kvh(race)] + args,
+                                env or {}, p.stderr[-4000:])
             raise Infra(f'harness failed ({p.returncode}): kvh {" ".join(args)}\n{p.stderr[-3000:]}')
         return p
 
